@@ -227,6 +227,16 @@ func (e *SpecEnv) ident(name string) (Value, error) {
 	case "nil":
 		return nilMarker{}, nil
 	}
+	if e.inOld && e.old != nil && len(e.old.frames) > 0 && e.fn != nil && e.old.frames[0].fn == e.fn {
+		// parameters whose SSA value was rebound (writes through s[i]) have their entry value in the snapshot
+		for _, p := range e.fn.Params {
+			if p.Name() == name {
+				if v, ok := e.old.frames[0].env[p]; ok {
+					return v, nil
+				}
+			}
+		}
+	}
 	if v, ok := e.vars[name]; ok {
 		if p, ok := v.(*PtrV); ok && len(p.path) == 0 {
 			return p, nil
@@ -511,6 +521,12 @@ func (e *SpecEnv) call(n *ast.CallExpr) (Value, error) {
 			return e.appended(n)
 		case "samePrefix":
 			return e.samePrefix(n)
+		case "catEq":
+			return e.catEq(n)
+		case "seqEq":
+			return e.seqEq(n)
+		case "sameExcept":
+			return e.sameExcept(n)
 		case "isType":
 			t, err := e.evalTerm(n.Args[0])
 			if err != nil {
@@ -567,7 +583,7 @@ func (e *SpecEnv) call(n *ast.CallExpr) (Value, error) {
 			if err != nil {
 				return nil, err
 			}
-			return App("str.prefixof", "Bool", b, a), nil
+			return prefixOf(b, a), nil
 		case "hasSuffix":
 			a, err := e.evalTerm(n.Args[0])
 			if err != nil {
@@ -577,7 +593,7 @@ func (e *SpecEnv) call(n *ast.CallExpr) (Value, error) {
 			if err != nil {
 				return nil, err
 			}
-			return App("str.suffixof", "Bool", b, a), nil
+			return suffixOf(b, a), nil
 		case "errmsg":
 			a, err := e.evalTerm(n.Args[0])
 			if err != nil {
@@ -595,6 +611,11 @@ func (e *SpecEnv) call(n *ast.CallExpr) (Value, error) {
 	}
 	if sel, ok := n.Fun.(*ast.SelectorExpr); ok {
 		// pkg.Func(...)
+		if id, ok := sel.X.(*ast.Ident); ok && id.Name == "strings" {
+			if _, isVar := e.vars[id.Name]; !isVar {
+				return e.stringsCall(sel.Sel.Name, n.Args)
+			}
+		}
 		if id, ok := sel.X.(*ast.Ident); ok {
 			if _, isVar := e.vars[id.Name]; !isVar {
 				if _, isB := e.bound[id.Name]; !isB {
@@ -1097,4 +1118,125 @@ func rebuild(op, sortName string, args []*Term) *Term {
 		return Is(strings.TrimSuffix(strings.TrimPrefix(op, "(_ is "), ")"), args[0])
 	}
 	return App(op, sortName, args...)
+}
+
+// catEq(new, old, extra): new is old followed by the elements of extra.
+func (e *SpecEnv) catEq(n *ast.CallExpr) (Value, error) {
+	if len(n.Args) != 3 {
+		return nil, fmt.Errorf("catEq(new, old, extra)")
+	}
+	nw, err := e.evalTerm(n.Args[0])
+	if err != nil {
+		return nil, err
+	}
+	od, err := e.evalTerm(n.Args[1])
+	if err != nil {
+		return nil, err
+	}
+	ex, err := e.evalTerm(n.Args[2])
+	if err != nil {
+		return nil, err
+	}
+	es := elemSortOfSlice(e.x.w, nw.Sort)
+	parts := []*Term{Eq(slLen(nw), Add(slLen(od), slLen(ex))), e.x.prefixEq(od, nw)}
+	if ln := slLen(ex); ln.Kind == KInt && ln.I <= 64 {
+		for i := int64(0); i < ln.I; i++ {
+			parts = append(parts, Eq(Select(slArr(nw), Add(slLen(od), IntT(i)), es), Select(slArr(ex), IntT(i), es)))
+		}
+		return And(parts...), nil
+	}
+	e.x.fresh++
+	k := VarT(fmt.Sprintf("k!p%d", e.x.fresh), "Int")
+	parts = append(parts, Quant("forall", []*Term{k}, Implies(And(Cmp("<=", IntT(0), k), Cmp("<", k, slLen(ex))),
+		Eq(App("select", es, slArr(nw), Add(slLen(od), k)), App("select", es, slArr(ex), k)))))
+	return And(parts...), nil
+}
+
+// seqEq(a, b): same length and elements.
+func (e *SpecEnv) seqEq(n *ast.CallExpr) (Value, error) {
+	a, err := e.evalTerm(n.Args[0])
+	if err != nil {
+		return nil, err
+	}
+	b, err := e.evalTerm(n.Args[1])
+	if err != nil {
+		return nil, err
+	}
+	return And(Eq(slLen(a), slLen(b)), e.x.prefixEq(a, b)), nil
+}
+
+// sameExcept(x, y, "f1", ...): struct values agree on every field not listed.
+func (e *SpecEnv) sameExcept(n *ast.CallExpr) (Value, error) {
+	a, err := e.evalTerm(n.Args[0])
+	if err != nil {
+		return nil, err
+	}
+	b, err := e.evalTerm(n.Args[1])
+	if err != nil {
+		return nil, err
+	}
+	skip := map[string]bool{}
+	for _, ex := range n.Args[2:] {
+		lit, ok := ex.(*ast.BasicLit)
+		if !ok {
+			return nil, fmt.Errorf("sameExcept: field names must be string literals")
+		}
+		f, _ := strconv.Unquote(lit.Value)
+		skip[f] = true
+	}
+	d := e.x.w.dts[a.Sort]
+	if d == nil || len(d.Ctors) != 1 || a.Sort != b.Sort {
+		return nil, fmt.Errorf("sameExcept on sort %s", a.Sort)
+	}
+	var parts []*Term
+	known := 0
+	for _, s := range d.Ctors[0].Sels {
+		f := strings.TrimPrefix(s, a.Sort+"__")
+		if skip[f] {
+			known++
+			continue
+		}
+		parts = append(parts, Eq(Sel(s, a), Sel(s, b)))
+	}
+	if known != len(skip) {
+		return nil, fmt.Errorf("sameExcept: unknown field name in %v", skip)
+	}
+	return And(parts...), nil
+}
+
+func (e *SpecEnv) stringsCall(name string, argExprs []ast.Expr) (Value, error) {
+	var args []*Term
+	var vals []Value
+	for _, a := range argExprs {
+		v, err := e.eval(a)
+		if err != nil {
+			return nil, err
+		}
+		if p, ok := v.(*PtrV); ok {
+			v = e.x.load(e.cur(), p, nil, token.NoPos)
+		}
+		vals = append(vals, v)
+		t := e.x.term(v)
+		if t == nil {
+			return nil, fmt.Errorf("strings.%s: argument has no term", name)
+		}
+		args = append(args, t)
+	}
+	switch name {
+	case "Join":
+		return e.x.joinModel(vals[0], args[1]), nil
+	case "HasPrefix":
+		return prefixOf(args[1], args[0]), nil
+	case "HasSuffix":
+		return suffixOf(args[1], args[0]), nil
+	case "Contains":
+		return App("str.contains", "Bool", args[0], args[1]), nil
+	case "ReplaceAll":
+		return replaceAll(args[0], args[1], args[2]), nil
+	case "TrimSpace":
+		return trimSpace(args[0]), nil
+	case "TrimLeft":
+		return trimLeft(args[0], args[1]), nil
+	}
+	return nil, fmt.Errorf("strings.%s is not available in contracts", name)
 }
